@@ -110,7 +110,7 @@ def parse_config_file(path: str, kwargs: dict):
     kwargs : dict
         options from command line arguments
     """
-    config = configparser.ConfigParser()
+    config = configparser.ConfigParser(interpolation=None)
     config.read(path)
 
     for key, val in config["config"].items():
